@@ -85,6 +85,9 @@ type Sh struct {
 	// ReadErr is returned for failed reads (default faultstore.ErrInjected).
 	ReadErr error
 	S       *shard.Shard
+	// Detached: the shard was removed from the running engine (Detach); its
+	// directory stays and may be attached again (Reattach).
+	Detached bool
 }
 
 // Eng is an engine over slots Sh[0..n).
@@ -228,6 +231,31 @@ func (e *Eng) AddShard(dir string, id common.ID) (*Sh, error) {
 	return s, nil
 }
 
+// Detach removes slot k from the running engine (the engine closes the shard),
+// as a configuration reload without that shard does.
+func (e *Eng) Detach(k int) {
+	e.E.VerifRemoveShards(e.Sh[k].ID.String())
+	e.Sh[k].Detached = true
+}
+
+// Reattach adds the directory of the detached slot k to the running engine
+// again (fresh storage objects, read-write mode, no injected faults).
+func (e *Eng) Reattach(k int) error {
+	old := e.Sh[k]
+	s, cfg, err := e.newSlot(k, old.Dir, common.ID{}, false)
+	if err != nil {
+		return err
+	}
+	got, err := e.E.AddShard(stor.ShardOpts(cfg)...)
+	if err != nil {
+		return err
+	}
+	s.ID = got
+	s.S = e.E.VerifShards()[got.String()]
+	e.Sh[k] = s
+	return nil
+}
+
 // Close closes the engine.
 func (e *Eng) Close() error { return e.E.Close() }
 
@@ -251,7 +279,9 @@ func (e *Eng) Mode(k int) mode.Mode { return e.Sh[k].S.GetMode() }
 func (e *Eng) SetEpoch(v uint64) {
 	e.Ep.Set(v)
 	for _, s := range e.Sh {
-		s.S.VerifNewEpoch(v)
+		if !s.Detached {
+			s.S.VerifNewEpoch(v)
+		}
 	}
 }
 
@@ -279,7 +309,7 @@ func (e *Eng) Phys(k int, a oid.Address) bool {
 func (e *Eng) Holders(a oid.Address) []int {
 	var r []int
 	for k := range e.Sh {
-		if e.Phys(k, a) {
+		if !e.Sh[k].Detached && e.Phys(k, a) {
 			r = append(r, k)
 		}
 	}
@@ -369,9 +399,11 @@ type hrwObj oid.ID
 func (o hrwObj) Hash() uint64 { return binary.BigEndian.Uint64(o[:8]) }
 
 func hrwOrder(shs []*Sh, id oid.ID) []int {
-	v := make([]hrwShard, len(shs))
+	v := make([]hrwShard, 0, len(shs))
 	for i, s := range shs {
-		v[i] = hrwShard{k: i, h: s.ID.Hash()}
+		if !s.Detached {
+			v = append(v, hrwShard{k: i, h: s.ID.Hash()})
+		}
 	}
 	hrw.Sort(v, hrwObj(id))
 	r := make([]int, len(v))
